@@ -741,7 +741,7 @@ func (vr *voterecords) vote(
 		}
 	}
 
-	switch _, found, err := vr.getSuffrage(); {
+	switch suf, found, err := vr.getSuffrage(); {
 	case err != nil:
 		return false, false, errors.WithMessage(err, "vote")
 	case !found:
@@ -749,6 +749,15 @@ func (vr *voterecords) vote(
 
 		return true, false, nil
 	default:
+		// NOTE like the ballots counted later by countFromBallots(), ballot
+		// should be signed by the publickey of the suffrage node.
+		if err := vr.isValidBallot(signfact, suf); err != nil {
+			delete(vr.vps, node.String())
+			delete(vr.expels, node.String())
+
+			return false, false, nil
+		}
+
 		vr.voted[node.String()] = signfact
 
 		return true, true, nil
